@@ -126,10 +126,10 @@ def regex_contracts():
                 if got != exp:
                     bad.append((text, got, exp))
         res.append(ob("regex/STR_STORAGE_TAG", not bad, "the tag counted iff an even number of quotes follows", bad[:3] or "%d texts" % n, bounded="all strings of up to %d tokens over %r" % (pick(5, 7), alpha)))
-        heads = {"procedure abc": "abc", "PROCEDURE  x_1  ": "x_1", " procedure abc": None, "procedure": None, "procedure a b": None, "procedure a-b": None, 'print "procedure abc"': None,
+        heads = {"procedure abc": "abc", "PROCEDURE  x_1  ": "x_1", " procedure abc": None, "procedure": None, "procedure a b": None, "procedure a-b": "a-b", "procedure a.b": None, "procedure -": "-", 'print "procedure abc"': None,
                  "procedure 3d": "3d", "Procedure _p": "_p"}
         bad = [(l, (procbank.PROCEDURE_START_PREFIX.match(l) or [None, None])[1], w) for l, w in heads.items() if ((procbank.PROCEDURE_START_PREFIX.match(l) or [None, None])[1]) != w]
-        res.append(ob("regex/PROCEDURE_START_PREFIX", not bad, "a header line is `procedure <word>` alone on its line", bad or "ok"))
+        res.append(ob("regex/PROCEDURE_START_PREFIX", not bad, "a header line is `procedure <name>` alone on its line, <name> over the characters the tool's procedure-name pattern admits (word characters and `-`)", bad or "ok"))
         return res
     return guarded("regex", run)
 
